@@ -665,11 +665,13 @@ func TestC17_Replay(t *testing.T) {
 func TestC17_GridFirstUse(t *testing.T) {
 	signing := []string{"authn-doc", "authn-str", "logout-req", "logout-resp", "auth-url", "auth-url-redirect", "logout-url", "auth-post", "logout-post", "sign-el", "metadata", "validate"}
 	var cases []C17Case
-	variants := 2
+	// variant 2 first: a NON-default signature algorithm and canonicaliser — a loser of the first-use race that
+	// builds its own signing context without them produces a valid but different signature
+	variants := []int{2, 0}
 	if h.Thorough() {
-		variants = 4
+		variants = []int{2, 0, 1, 3}
 	}
-	for v := 0; v < variants; v++ {
+	for _, v := range variants {
 		for _, a := range signing {
 			for _, b := range signing {
 				c := C17Case{SP: c17SP(v)}
